@@ -18,7 +18,9 @@ from vlib import ToolError, short_hash, tlc
 
 LEVEL = "model_checking"
 CONNECTIVES = {"to", "of", "on", "off", "as", "in", "into", "at", "is", "what"}
-COMMENTS = ["note", "5 + 3", "to usd", "december 5", "5 december 2020", "10 km", "%", "zorp = 3", "0x1F * 2", "#", "11:30 EST", "today"]
+# (month names from both ends of the year and in both languages: a month named in the comment must not disturb the months of the line)
+COMMENTS = ["note", "5 + 3", "to usd", "december 5", "5 december 2020", "10 km", "%", "zorp = 3", "0x1F * 2", "#", "11:30 EST", "today",
+            "may change", "was 3 January", "FEB report", "ocak raporu", "1 oca"]
 WORD = re.compile(r"[^\W\d_]+", re.UNICODE)
 
 
